@@ -1,7 +1,9 @@
 import CookModel.Driver.Num
+import CookModel.Driver.Builder
 /- Registry of line-protocol handlers. One line per area. -/
 namespace Cook.Driver
 def handlers : List (List String → Option String) := [
-  handleNum
+  handleNum,
+  handleBuilder
 ]
 end Cook.Driver
